@@ -8,7 +8,7 @@ from vlib import env, core, geom, plugin_harness, stateful  # noqa: F401
 from vlib.plugin_harness import Harness
 
 ID = "C12"
-BUDGET = {"quick": 800, "thorough": 5000}
+BUDGET = {"quick": 1500, "thorough": 6000}
 STEPS = {"quick": 25, "thorough": 50}
 RULE = ("RuleBasedStateMachine over the API during an active print with the shrink setting off (a minority of steps toggles the "
         "setting or ends/restarts the print; the safety invariant is only asserted for steps taken under the property's "
@@ -114,6 +114,17 @@ coord = st.one_of(st.integers(0, 60).map(float), st.sampled_from([10.25, 20.5, 3
 
 def derive(old, how, delta, shift):  # noqa: C901  pylint: disable=too-many-branches
     """New geometry for an update of `old` (API dict)."""
+    if how.startswith("cut"):
+        # the bounding box of the old region, grown by 1 on three sides and moved inward by delta (or 0.25) on the fourth
+        side = int(how[3])
+        if old["type"] == "RectangularRegion":
+            box = [old["x1"], old["y1"], old["x2"], old["y2"]]
+        else:
+            box = [old["cx"] - old["r"], old["cy"] - old["r"], old["cx"] + old["r"], old["cy"] + old["r"]]
+        new = [box[0] - 1, box[1] - 1, box[2] + 1, box[3] + 1]
+        d = delta if delta >= 0.5 else 0.25
+        new[side] = box[side] + (d if side < 2 else -d)
+        return {"type": "RectangularRegion", "x1": new[0], "y1": new[1], "x2": new[2], "y2": new[3]}
     if old["type"] == "RectangularRegion":
         x1, y1, x2, y2 = old["x1"], old["y1"], old["x2"], old["y2"]
         cx, cy = (x1 + x2) / 2, (y1 + y2) / 2
@@ -151,7 +162,8 @@ def derive(old, how, delta, shift):  # noqa: C901  pylint: disable=too-many-bran
     return {"type": "RectangularRegion", "x1": cx - r, "y1": cy - r - delta, "x2": cx + r + shift, "y2": cy + r}
 
 
-HOWS = ["grow", "grow", "shrink", "shift", "grow_one_side", "circum", "circum", "circum_minus", "inscr", "other"]
+HOWS = ["grow", "grow", "shrink", "shift", "grow_one_side", "circum", "circum", "circum_minus", "inscr", "other",
+        "cut0", "cut1", "cut2", "cut3"]
 
 
 def machine(tier, col):  # pylint: disable=unused-argument
